@@ -114,3 +114,106 @@ async def run_history(loop: VLoop, cap: int, rate: float, retry: int, t0_8: int,
             poll()
     await rl.stop()
     return dec, lines, cleanups, trace
+
+
+def crowd_ip(i: int) -> str:
+    """address text of crowd member i (distinct from every address text of the small histories)"""
+    return f"172.{16 + ((i >> 16) & 15)}.{(i >> 8) & 255}.{i & 255}"
+
+
+async def run_schedule(loop: VLoop, cap: int, rate: float, retry: int, t0_8: int, steps, ip_text, start_cleanup: bool = True):
+    """A history given as explicit scheduling steps, for the REAL RateLimiter with its REAL clean-up task:
+
+      ["t", t8]            move the clock to t0 + t8/8 s; wake-ups of the clean-up task due strictly BEFORE that instant fire
+                           at their own time and are given the loop until the pass has finished; a wake-up due exactly AT
+                           the instant is left pending: it fires during the loop iterations that follow
+      ["y", k]             k event-loop iterations (whatever is ready runs: the timer callback, the clean-up task, ...)
+      ["r", a]             one request from address a, awaited directly
+      ["g", [a, ...]]      requests launched together with asyncio.gather
+      ["crowd", first, n]  one request from each of the n DISTINCT addresses crowd_ip(first) ... crowd_ip(first + n - 1)
+
+    Returns {"dec": decisions of the r/g requests in order, "times": their t8, "who": their address index,
+             "crowd": [[admitted, refused] per crowd step], "lines": refusal lines, "trace": compact order of events with
+             clean-up passes as ["c", t8] where they were seen to have finished, "tracked": size of the table at the end}."""
+    from nauyaca.server.middleware import RateLimitConfig, RateLimiter
+
+    loop.vt = t0_8 / 8
+    rl = RateLimiter(RateLimitConfig(capacity=cap, refill_rate=rate, retry_after=retry))
+    if start_cleanup:
+        rl.start()
+    await settle(2)
+    dec, times, who, crowd, lines, trace = [], [], [], [], set(), []
+    armed = [next_timer(loop)]
+    now8 = [0]
+
+    def poll():
+        w = next_timer(loop)
+        if w != armed[0] and w is not None:
+            if armed[0] is not None:
+                c8 = armed[0] * 8 - t0_8
+                trace.append(["c", int(c8) if c8 == int(c8) else c8])
+            armed[0] = w
+
+    async def finish_pass():
+        # the pass that just became due runs to its end (one iteration in a pass without suspension points)
+        for _ in range(20000):
+            await asyncio.sleep(0)
+            w = next_timer(loop)
+            if w is not None and w > loop.vt:
+                break
+        poll()
+
+    def note(ok, line):
+        if not ok:
+            lines.add(line if isinstance(line, str) else repr(line))
+        elif line is not None:
+            lines.add(repr(["admitted-with-line", line]))
+
+    for st in steps:
+        k = st[0]
+        if k == "t":
+            target = (t0_8 + st[1]) / 8
+            while True:
+                nxt = next_timer(loop)
+                if nxt is not None and nxt < target:
+                    loop.vt = max(loop.vt, nxt)
+                    await finish_pass()
+                else:
+                    break
+            loop.vt = max(loop.vt, target)
+            now8[0] = st[1]
+        elif k == "y":
+            for _ in range(st[1]):
+                await asyncio.sleep(0)
+                poll()
+        elif k == "r":
+            ok, line = await rl.process_request("gemini://h/", ip_text(st[1]), None)
+            poll()
+            dec.append(bool(ok)); times.append(now8[0]); who.append(st[1]); note(ok, line)
+            trace.append(["r", st[1], now8[0]])
+        elif k == "g":
+            res = await asyncio.gather(*[rl.process_request("gemini://h/a", ip_text(a), None) for a in st[1]])
+            poll()
+            for a, (ok, line) in zip(st[1], res):
+                dec.append(bool(ok)); times.append(now8[0]); who.append(a); note(ok, line)
+                trace.append(["r", a, now8[0]])
+        elif k == "crowd":
+            adm = ref = 0
+            for i in range(st[1], st[1] + st[2]):
+                ok, line = await rl.process_request("gemini://h/c", crowd_ip(i), None)
+                note(ok, line)
+                if ok:
+                    adm += 1
+                else:
+                    ref += 1
+            poll()
+            crowd.append([adm, ref])
+            trace.append(["crowd", st[1], st[2], now8[0]])
+    # let a pass that is under way finish before the table is inspected
+    nxt = next_timer(loop)
+    if nxt is not None and nxt <= loop.vt:
+        await finish_pass()
+    tracked = len(rl.buckets)
+    await rl.stop()
+    await settle(2)
+    return {"dec": "".join("1" if d else "0" for d in dec), "times": times, "who": who, "crowd": crowd, "lines": sorted(lines), "trace": trace, "tracked": tracked}
